@@ -50,7 +50,7 @@ def main():
                 failed = "FAILED" in r.stdout or "error" in r.stdout
                 print("  [tests] %s" % ("FAIL (mutant is caught by the suite)" if failed else "pass"))
             for prop in m["props"]:
-                env = dict(os.environ, MZSA_REPO=dst, MZSA_KEEP_CACHE="1")
+                env = dict(os.environ, MZSA_REPO=dst, MZSA_KEEP_CACHE="1", MZSA_EVIDENCE_DIR=os.path.join(tmp, "evidence"))
                 r = subprocess.run([os.path.join(VERIF, "check"), prop, "--tier", m.get("tier", "quick")], env=env,
                                    stdout=subprocess.PIPE, stderr=subprocess.STDOUT, text=True, cwd=VERIF)
                 out = r.stdout
